@@ -51,6 +51,12 @@ R1b == Obj([src |-> Obj([a |-> IntV(5), b |-> Arr(<<IntV(9), IntV(7), IntV(8)>>)
 R2b == Obj([src |-> Arr(<<IntV(4), S1(98), Arr(<<IntV(6), IntV(5)>>)>>), asm |-> Obj([x |-> IntV(2)])])
 R3b == Obj([src |-> Obj([k |-> IntV(6), x |-> IntV(1)])])
 
+\* R4: arrays of 0, 1, 2 and 3 scalars under $.src (directly and one level down): what a "returns a copy" function hands back
+\* for the SHORT ones must be a copy too
+R4 == Obj([src |-> Obj([e0 |-> Arr(<<>>), e1 |-> Arr(<<S1(102)>>), e2 |-> Arr(<<IntV(7), IntV(8)>>), e3 |-> Arr(<<IntV(3), IntV(1), IntV(2)>>),
+                        o |-> Obj([e0 |-> Arr(<<>>), e1 |-> Arr(<<IntV(5)>>)]), a |-> IntV(1)])])
+R4b == Obj([src |-> Obj([e0 |-> Arr(<<>>), e1 |-> Arr(<<S1(103)>>), e2 |-> Arr(<<IntV(4), IntV(6)>>), e3 |-> Arr(<<IntV(9), IntV(7), IntV(8)>>),
+                         o |-> Obj([e0 |-> Arr(<<>>), e1 |-> Arr(<<IntV(6)>>)]), a |-> IntV(2)])])
 Asm == P(FALSE, <<C("asm")>>)
 Wrapped(x) == Call("set", <<Asm, x>>)
 Case(p, r, bare) == [plan |-> p, root |-> r, bare |-> bare]
@@ -409,6 +415,28 @@ ModPlans == {Call("mod", <<a, b>>) : a \in ModAs, b \in ModBs \cup {IntV(0)}}
             \cup {Call("list", <<Call("mod", <<a, b>>), Call("mod", <<d, b>>)>>) : a \in ModAs, d \in ModAs, b \in {IntV(2), IntV(3), IntV(4), IntV(-4)}}
             \cup {Call("list", <<Call("mod", <<P(FALSE, <<C("src"), C("a")>>), b>>), Call("mod", <<Call("dif", <<IntV(0), P(FALSE, <<C("src"), C("a")>>)>>), b>>), Call("mod", <<IntV(-7), b>>), Call("mod", <<IntV(-7), IntV(3)>>)>>) : b \in ModBs}
 
+\* ------------------------------------------------------------------ variadic arithmetic over argument-kind SEQUENCES: the cell table
+\* (function x kind sequence) for sequences of length 3 and 4 that mix int (also 0), float, string and a non-number in
+\* every order (the running total changes its kind on the way: int -> float -> string; a zero factor early or late)
+Seq3Atoms == {IntV(1), IntV(0), Flt(5, 1), S1(120), Bool(TRUE)}
+Seq4Atoms == {IntV(2), IntV(0), Flt(5, 1), S1(120)}
+SeqFns == {f \in Fns : Canon(f) \in {"sum", "dif", "product", "quotient"} /\ Canon(f) = f}
+SumKindPlans == {Call(f, t) : f \in SeqFns, t \in Tuples(Seq3Atoms, 3)}
+                \cup {Call(f, t) : f \in {x \in SeqFns : x \in {"sum", "product"}}, t \in Tuples(Seq4Atoms, 4)}
+                \cup {Call(f, <<P(FALSE, <<C("src"), C("zi")>>), x>>) : f \in SeqFns, x \in {P(FALSE, <<C("src"), C("b")>>), P(FALSE, <<C("src"), C("zz")>>), P(FALSE, <<C("src"), C("f")>>), P(FALSE, <<C("src"), C("s")>>)}}
+
+\* ------------------------------------------------------------------ copies: the result of a function documented to return a copy
+\* (reverse, sort) of an array of 0, 1, 2, 3 items that lives under $.src is stored under $.asm and then MODIFIED there by a
+\* later step: $.src must not change (the copy is a copy for every length)
+CopyLists == {P(FALSE, <<C("src"), C(x)>>) : x \in {"e0", "e1", "e2", "e3"}} \cup {P(FALSE, <<C("src"), C("o"), C(x)>>) : x \in {"e0", "e1"}}
+             \cup {Call("get", <<P(FALSE, <<C("src"), C("e1")>>)>>), P(TRUE, <<C("src"), C("e1")>>)}
+CopyCalls == {Call("reverse", <<l>>) : l \in CopyLists} \cup {Call("sort", <<l, P(TRUE, <<>>)>>) : l \in CopyLists}
+AsmR == P(FALSE, <<C("asm"), C("r")>>)
+CopyMods == {Call("set", <<P(FALSE, <<C("asm"), C("r"), N(0)>>), IntV(9)>>), Call("set", <<P(FALSE, <<C("asm"), C("r"), N(-1)>>), S1(122)>>),
+             Call("setall", <<P(FALSE, <<C("asm"), C("r"), N(0)>>), IntV(9)>>)}
+CopyPlans == {Call("asm", <<Call("set", <<AsmR, x>>), m>>) : x \in CopyCalls, m \in CopyMods}
+             \cup {Call("asm", <<Call("set", <<AsmR, x>>), m, Call("set", <<P(FALSE, <<C("asm"), C("s")>>), x>>)>>) : x \in CopyCalls, m \in CopyMods}
+
 \* ------------------------------------------------------------------ families
 Both(ps, r) == {Case(Wrapped(p), r, FALSE) : p \in ps} \cup {Case(p, r, FALSE) : p \in ps}
 Cases ==
@@ -434,6 +462,8 @@ Cases ==
     [] Part = "route" -> {Case(p, R1, FALSE) : p \in RouteTable \cup RouteForms \cup TypedPairs}
     [] Part = "cells" -> {Case(Wrapped(p), R1, FALSE) : p \in CellPlans} \cup {Case(p, R1, FALSE) : p \in CellTop} \cup {Case(p, R1, b) : p \in CellBare, b \in BOOLEAN}
     [] Part = "hist" -> {Case(p, R1, FALSE) : p \in HistPool}
+    [] Part = "sumkinds" -> {Case(Wrapped(p), R1, FALSE) : p \in SumKindPlans}
+    [] Part = "copyres" -> {Case(p, R4, b) : p \in CopyPlans, b \in BOOLEAN}
     [] Part = "modsign" -> {Case(Wrapped(p), R1, FALSE) : p \in ModPlans}
     [] Part = "forms" -> Both(CondPlans \cup SortPlans \cup EachPlans, R1) \cup Both(SortPlans, R3)
     [] OTHER -> {}
@@ -461,9 +491,9 @@ Idle == root = Null /\ last = Null /\ steps = 0      \* the design-check machine
 GInit == Idle /\ (IF Part = "random" THEN c = RandCase ELSE c \in Cases)
 GNext == UNCHANGED vars /\ (IF Part = "random" THEN c' = RandCase ELSE UNCHANGED c)
 Emit == PrintT(<<"PL", ToJson(c)>>)
-RootName(r) == CASE r = R1 -> "R1" [] r = R2 -> "R2" [] r = R3 -> "R3" [] OTHER -> "?"
+RootName(r) == CASE r = R1 -> "R1" [] r = R2 -> "R2" [] r = R3 -> "R3" [] r = R4 -> "R4" [] OTHER -> "?"
 EmitShort == PrintT(<<"PL", ToJson([plan |-> c.plan, root |-> RootName(c.root), bare |-> c.bare])>>)
-Roots == [R1 |-> R1, R2 |-> R2, R3 |-> R3, R1b |-> R1b, R2b |-> R2b, R3b |-> R3b]
+Roots == [R1 |-> R1, R2 |-> R2, R3 |-> R3, R1b |-> R1b, R2b |-> R2b, R3b |-> R3b, R4 |-> R4, R4b |-> R4b]
 ASSUME PrintT(<<"ROOTS", ToJson(Roots)>>)
 
 \* ------------------------------------------------------------------ design check of Asm over the generated universe
